@@ -146,9 +146,9 @@ func zzC06RoundTrip(srcKind, dstKind int) {
 }
 
 func ZZ_C06_roundtrip_sparse_sparse() { zzC06RoundTrip(0, 0) }
-func ZZ_C06_roundtrip_symbolic_weight_sparse_sparse_T() { zzSymbolicWeight = true; zzC06RoundTrip(0, 0) }
-func ZZ_C06_roundtrip_symbolic_weight_dense_dense_T()   { zzSymbolicWeight = true; zzC06RoundTrip(1, 1) }
-func ZZ_C06_roundtrip_symbolic_weight_pag_pag_T()       { zzSymbolicWeight = true; zzC06RoundTrip(2, 2) }
+func ZZ_C06_roundtrip_symbolic_weight_sparse_sparse_X() { zzSymbolicWeight = true; zzC06RoundTrip(0, 0) }
+func ZZ_C06_roundtrip_symbolic_weight_dense_dense_X()   { zzSymbolicWeight = true; zzC06RoundTrip(1, 1) }
+func ZZ_C06_roundtrip_symbolic_weight_pag_pag_X()       { zzSymbolicWeight = true; zzC06RoundTrip(2, 2) }
 func ZZ_C06_roundtrip_sparse_dense()  { zzC06RoundTrip(0, 1) }
 func ZZ_C06_roundtrip_sparse_pag()    { zzC06RoundTrip(0, 2) }
 func ZZ_C06_roundtrip_dense_sparse()  { zzC06RoundTrip(1, 0) }
